@@ -7,8 +7,11 @@
      closed : closed-form REE / EOF / GME of Werner and isotropic states: exactly zero on the separable range
               (alpha <= 1/d resp. alpha <= 1/(d+1), end point included), strictly positive outside;
      closed_near : the same closed forms within 2^-10 .. 2^-50 of the threshold, on both sides;
-     closed_shape : monotone, continuous and with the documented end value on the entangled range. *)
-EXTENDS Rat, TLC, Json, IOUtils, FiniteSets
+     closed_shape : monotone, continuous and with the documented end value on the entangled range;
+     bases  : a catalogued family of orthonormal measurement bases (Chebyshev 4PB / 5PB, element-probing eq. 9), returned as one list
+              of projectors: the documented number of blocks of d projectors, every projector Hermitian, positive semidefinite of rank
+              one (Gram certificate with one column, Sets.tla), mutually orthogonal inside a block, every block resolving the identity. *)
+EXTENDS Rat, Sets, TLC, Json, IOUtils
 Events == JsonDeserialize(IOEnv.TRACE_FILE)
 VARIABLE l
 Dot(u, v) == FoldLeft(LAMBDA a, k : a + u[k] * v[k], 0, [k \in 1..Len(u) |-> k])
@@ -38,7 +41,12 @@ ClosedShapeOK(e) == LET n == Len(e.vals)  span == e.vals[n] - e.vals[1] IN
    /\ n >= 50 /\ e.vals[1] >= -2 /\ e.vals[1] <= 2                        \* starts at zero on the threshold
    /\ \A k \in 1..(n - 1) : e.vals[k + 1] >= e.vals[k] - 2 /\ 20 * (e.vals[k + 1] - e.vals[k]) <= 3 * span + 40
    /\ (e.endval >= 0 => (e.vals[n] - e.endval <= 2 /\ e.endval - e.vals[n] <= 2))
-Valid(e) == CASE e.op = "closed_shape" -> ClosedShapeOK(e) [] e.op = "upb" -> UpbOK(e) [] e.op = "closed" -> ClosedOK(e) [] e.op = "closed_near" -> ClosedNearOK(e) [] OTHER -> FALSE
+NumBases(fn, flag) == CASE fn = "get_chebshev_orthonormal" -> (IF flag THEN 5 ELSE 4) [] fn = "get_element_probing_POVM_eq9" -> 4 [] OTHER -> -1
+BasesOK(e) == LET d == e.d  nb == NumBases(e.fn, e.flag) IN
+   /\ Len(e.Ps) = nb * d /\ Len(e.As) = nb * d
+   /\ \A k \in 1..(nb * d) : /\ Len(e.Ps[k]) = d /\ HermOK(e.Ps[k]) /\ GramOK(e.As[k], e.Ps[k], e.S, 1)
+   /\ \A b \in 0..(nb - 1) : LET blk == [k \in 1..d |-> e.Ps[b * d + k]] IN SumOK(blk, e.S) /\ OrthoMatsOK(blk, e.S)
+Valid(e) == CASE e.op = "bases" -> BasesOK(e) [] e.op = "closed_shape" -> ClosedShapeOK(e) [] e.op = "upb" -> UpbOK(e) [] e.op = "closed" -> ClosedOK(e) [] e.op = "closed_near" -> ClosedNearOK(e) [] OTHER -> FALSE
 Init == l = 1 /\ TLCSet(1, 0)
 Next == /\ l <= Len(Events)
         /\ IF Valid(Events[l]) THEN TLCSet(1, TLCGet(1) + 1) ELSE PrintT(<<"REJECT", l, Events[l].op>>)
